@@ -21,6 +21,30 @@ INT_MAX = {
     "usize": 2**64 - 1, "bool": 1,
 }
 INT_BITS = {"u8": 8, "u16": 16, "u32": 32, "u64": 64, "u128": 128, "usize": 64, "bool": 1}
+INT_MIN = {k: 0 for k in INT_MAX}
+for _w, _n in (("i8", 8), ("i16", 16), ("i32", 32), ("i64", 64), ("i128", 128), ("isize", 64)):
+    INT_MAX[_w] = 2 ** (_n - 1) - 1
+    INT_MIN[_w] = -(2 ** (_n - 1))
+    INT_BITS[_w] = _n
+SIGNED = frozenset(k for k, v in INT_MIN.items() if v < 0)
+
+
+def atom_signed(a):
+    """may this atom be negative?"""
+    k = a[0]
+    if k in ("sym", "opq"):
+        return a[2] in SIGNED
+    if k == "elem":
+        return a[4] in SIGNED
+    if k == "div":
+        return key_signed(a[1])
+    return False
+
+
+def key_signed(tkey):
+    """may the term (a Lin key) be negative, syntactically?"""
+    L = Lin.from_key(tkey)
+    return L.c < 0 or any(c < 0 or atom_signed(a) for a, c in L.t.items())
 LEN_MAX = 2**63 - 1
 # collection name -> upper bound on its element count (isize::MAX bytes / lower bound of the element size)
 CNT_BOUNDS = {}
